@@ -44,11 +44,20 @@ def shards(tier: str) -> int:
 def ingredients(draw: Any) -> dict[str, Any]:
     mode = draw(st.sampled_from(["text", "text", "bin"]))
     sw: dict[str, Any] = {"mode": mode}
-    sw["non_ascii"] = draw(st.integers(0, 3)) == 0
+    sw["non_ascii"] = draw(st.integers(0, 3 if mode == "text" else 1)) == 0
     if mode == "text":
         sw["empty_literal"] = draw(st.integers(0, 5)) == 0
         sw["regex"] = draw(st.sampled_from(["guarded", "guarded", "none", "empty"]))
-    spec = draw(overlap_specs()) if draw(st.integers(0, 3)) == 0 else draw(specgen.grammars(sw))
+    pick = draw(st.integers(0, 7))
+    if pick == 7:
+        # directed: non-ASCII text BEHIND binary material (bytes, a bytes regex or a byte made of bits)
+        pre = draw(st.sampled_from([["blit", "01"], ["brx", "[ab]"], ["seq", [["bit", 0], ["bit", 1]] + [["alt", [["bit", 0], ["bit", 1]]] for _ in range(6)]]]))
+        cur = draw(st.lists(st.sampled_from(["é", "ü", "€", "µm", "b"]), min_size=1, max_size=3, unique=True))
+        tail = draw(st.sampled_from([[], [["opt", ["blit", "00"]]], [["blit", "7e"]]]))
+        spec = {"rules": [["start", ["seq", [["nt", "pre"], ["nt", "cur"]] + tail]], ["pre", pre], ["cur", ["alt", [["lit", c] for c in cur]]]],
+                "mode": "bin", "alphabet": "ab"}
+    else:
+        spec = draw(overlap_specs()) if pick < 2 else draw(specgen.grammars(sw))
     return {
         "spec": spec,
         "idx": draw(st.lists(st.integers(0, 10**6), min_size=4, max_size=25)),
@@ -152,11 +161,22 @@ def check_case(case: dict[str, Any], ctx: Any = None) -> list[str]:
             inp = to_input(ci)
             units = S.input_to_units(inp, mode)
             if not sem.recognise(units, "start"):
-                # a generated word outside L(G) is C01's business; an enumerated one would be a harness bug
+                # an enumerated word outside L(G) would be a harness bug; a GENERATED one is a broken derivation (C01) -
+                # and a broken round trip as well if Fandango does not even read its own output back
                 if src == "enum":
                     raise AssertionError(f"enumerator produced a word outside L(G): {inp!r}\n{text}")
                 if ctx is not None:
                     ctx.count("generated_word_not_in_L")
+                try:
+                    with Fuel():
+                        back = [t for t in itertools.islice(f.parse(inp), 12)]
+                    if not any((str(t) if mode == "text" else bytes(t)) == inp for t in back):
+                        msgs.append(f"word {inp!r} generated by Fandango is not parsed back by the same spec ({len(back)} tree(s)); "
+                                    f"the reference does not accept it as a word of L(G) either")
+                except FuelExhausted:
+                    pass
+                except Exception as e:
+                    msgs.append(f"Fandango.parse({inp!r}) raised {type(e).__name__}: {e} for a word Fandango generated")
                 continue
             if not sem.recognise(units, "start", greedy=True):
                 if ctx is not None:
